@@ -12,10 +12,10 @@ PROP = {
         {"name": "rocks-rawid", "crate": "store", "bin": "sv-c13", "machine": "c13r", "features": [],
          "modes": ["model"], "gen_args": ["rawid"],
          "cases": {"quick": 480, "thorough": 16000}, "min_shard": 30, "timeout": 1500},
-        # SIGKILL exploration: support only (RocksDB's WAL durability is trusted, not proved); thorough tier only
+        # SIGKILL exploration: support only (RocksDB WAL durability is trusted, not proved); a few cases in quick too
         {"name": "rocks-crash", "crate": "store", "bin": "sv-c13", "machine": "c13r", "features": [],
          "gen_args": ["crash"], "shrink": False,
-         "cases": {"quick": 0, "thorough": 1600}, "min_shard": 100, "timeout": 1500},
+         "cases": {"quick": 96, "thorough": 1600}, "min_shard": 12, "timeout": 1500},
         {"name": "inmem-random", "crate": "store", "bin": "sv-c13m", "machine": "c13m", "features": [],
          "cases": {"quick": 16000, "thorough": 320000}, "min_shard": 1000, "timeout": 1500},
         # every hand-over choreography of three handles on one URI up to a fixed depth (small-scope exhaustive)
